@@ -1,13 +1,14 @@
 (* Executable entry points of the model, as run by the correspondence checks (extracted to OCaml by
    ExtractAll.v, and evaluated inside Coq with vm_compute by the kernel path).  Definitions only. *)
 From Coq Require Import List String ZArith NArith.
-From Bexpr Require Import Base Strconv Ast Unicode Peg Typing Actions GoGrammar PegGrammar Univ Eval Api Dump Quote.
+From Bexpr Require Import Base Strconv Ast Unicode Peg Typing Actions GoGrammar PegGrammar Canon Univ Eval Api Dump Quote.
 Import ListNotations.
 Open Scope string_scope.
 
 Definition big_fuel : nat := 200000.
-Definition model_parse (mx : option N) (s : string) : presult := parse go_grammar mx action_sem pred_sem big_fuel s.
-Definition model_parse_peg (mx : option N) (s : string) : presult := parse peg_grammar mx action_sem pred_sem big_fuel s.
+(* canon_go / canon_peg: labels renamed back to the names the action semantics uses; the identity on the unchanged tree (CanonId.v) *)
+Definition model_parse (mx : option N) (s : string) : presult := parse (canon_go go_grammar) mx action_sem pred_sem big_fuel s.
+Definition model_parse_peg (mx : option N) (s : string) : presult := parse (canon_peg peg_grammar) mx action_sem pred_sem big_fuel s.
 Definition parse_expr (mx : option N) (s : string) : option expr :=
   match model_parse mx s with Accepted (VExpr e) _ => Some e | _ => None end.
 
